@@ -48,3 +48,56 @@ func DebugStrip(p *Prog, a *Anchors) {
 		})
 	}
 }
+
+// DebugPath prints one call path from the function named `from` to an instruction satisfying pred (foreground only).
+func DebugPath(p *Prog, a *Anchors, from string, pred func(ssa.Instruction) bool) {
+	var start *ssa.Function
+	for _, fn := range p.RepoFuncs {
+		if p.ShortName(fn) == from {
+			start = fn
+		}
+	}
+	if start == nil {
+		fmt.Println("no such function", from)
+		return
+	}
+	type node struct {
+		fn   *ssa.Function
+		path []string
+	}
+	seen := map[*ssa.Function]bool{}
+	wl := []node{{start, []string{p.ShortName(start)}}}
+	for len(wl) > 0 {
+		n := wl[0]
+		wl = wl[1:]
+		if seen[n.fn] {
+			continue
+		}
+		seen[n.fn] = true
+		found := false
+		instrsOf(n.fn, func(in ssa.Instruction) {
+			if found {
+				return
+			}
+			if pred(in) {
+				fmt.Println("PATH:", n.path, "->", p.InstrPos(in), in.String())
+				found = true
+				return
+			}
+			ci, ok := in.(ssa.CallInstruction)
+			if !ok {
+				return
+			}
+			if _, isGo := in.(*ssa.Go); isGo {
+				return
+			}
+			for _, c := range p.RepoCallees(ci) {
+				wl = append(wl, node{c, append(append([]string{}, n.path...), p.InstrPos(in)+":"+p.ShortName(c))})
+			}
+		})
+		if found {
+			return
+		}
+	}
+	fmt.Println("no path")
+}
